@@ -221,3 +221,48 @@ func H_roundPrint(k, d int) {
 		}
 	}
 }
+
+// c17Operand: operand spellings that end or start with tokens the lexer treats specially
+// (null-safe accesses, brackets, signs, literals, identifiers).
+func c17Operand(k int) ast.Node {
+	switch k {
+	case 0:
+		return &ast.DataRefNode{Key: "a", Access: []ast.Node{&ast.DataRefIndexNode{NullSafe: true, Index: 0}}}
+	case 1:
+		return &ast.DataRefNode{Key: "a", Access: []ast.Node{&ast.DataRefIndexNode{Index: 0}}}
+	case 2:
+		return &ast.DataRefNode{Key: "a", Access: []ast.Node{&ast.DataRefKeyNode{NullSafe: true, Key: "b"}}}
+	case 3:
+		return &ast.DataRefNode{Key: "a", Access: []ast.Node{&ast.DataRefExprNode{Arg: &ast.IntNode{Value: 0}}}}
+	case 4:
+		return &ast.DataRefNode{Key: "a", Access: []ast.Node{&ast.DataRefExprNode{NullSafe: true, Arg: dref("i")}}}
+	case 5:
+		return &ast.FunctionNode{Name: "f", Args: []ast.Node{&ast.IntNode{Value: 1}}}
+	case 6:
+		return &ast.ListLiteralNode{Items: []ast.Node{&ast.IntNode{Value: 1}}}
+	case 7:
+		return &ast.StringNode{Quoted: "'s'", Value: "s"}
+	case 8:
+		return &ast.IntNode{Value: -1}
+	case 9:
+		return &ast.FloatNode{Value: 1.5}
+	case 10:
+		return &ast.NullNode{}
+	case 11:
+		return &ast.BoolNode{True: true}
+	case 12:
+		return &ast.GlobalNode{Name: "G.X"}
+	case 13:
+		return &ast.DataRefNode{Key: "ij", Access: []ast.Node{&ast.DataRefKeyNode{Key: "x"}}}
+	case 14:
+		return &ast.NegateNode{Arg: dref("a")}
+	case 15:
+		return &ast.MapLiteralNode{Items: map[string]ast.Node{"k": &ast.IntNode{Value: 1}}}
+	}
+	return dref("a")
+}
+
+// H_roundOperands: every operator over every pair of operand spellings (third operand $z).
+func H_roundOperands(o, l, r int) {
+	c17Check(c17Op(o, c17Operand(l), c17Operand(r), dref("z")))
+}
